@@ -1,6 +1,6 @@
 """C03 A hash does not depend on the history of the VM, cache or dataset objects."""
 import astq
-from rules import a64patch, aes, argon, decode, driver, dsinit, genreset, jitcross
+from rules import a64patch, aes, argon, decode, driver, dsinit, genreset, jitcross, vmcfg
 
 LEVEL = 'other'
 TECHNIQUE = ('CFG dominance on the drivers, definite-assignment of per-program VM state, decoder def-use path enumeration, guard/capture agreement of the set_cache shortcut, sibling comparison of call sequences; vtable-resolved effect comparison of the two binding setters'
@@ -46,3 +46,4 @@ def run(ctx, R):
     genreset.rule_ctor_init(ctx, R, 'x86')
     genreset.rule_ctor_init(ctx, R, 'a64')
     genreset.rule_ctor_init(ctx, R, 'rv64')
+    vmcfg.rule_initorder(ctx, R, F)
